@@ -74,6 +74,16 @@ impl Report {
         }
     }
     pub fn violation(&mut self, signature: &str, detail: &str, replay: Value) {
+        // a panic raised by the harness's own code (no agdb frame on the stack, location in a `src/` file of the
+        // harness: a scratch directory that cannot be created, a full disk, a harness bug) says nothing about the
+        // property: inconclusive, never a violation
+        if let Some(at) = signature.split(":panic:").nth(1).and_then(|p| p.rsplit_once('@')).map(|x| x.1) {
+            if at.starts_with("src/") && at.ends_with(":?") {
+                self.inconclusive(&format!("harness error (not a verdict): {signature}: {}", detail.chars().take(300).collect::<String>()));
+                self.count("harness_errors");
+                return;
+            }
+        }
         self.violations_total += 1;
         let n = self
             .violations_by_signature
